@@ -36,3 +36,23 @@ def trace():
         print('REPLAY: VIOLATION-CONFIRMED an invalid expression is silently evaluated')
         return
     print('REPLAY: not reproduced')
+
+
+def align():
+    from nutils import function
+    from nutils.expression_v2 import Namespace
+    import numpy, itertools
+    ns = Namespace()
+    ns.a, ns.b, ns.c = (function.Array.cast(numpy.arange(1., n + 1)) for n in (2, 3, 4))
+    T = numpy.arange(24.).reshape(2, 3, 4)
+    ns.T = function.Array.cast(T)
+    for out in itertools.permutations('ijk'):
+        name = 'P_' + ''.join(out)
+        setattr(ns, name, 'a_i b_j c_k')
+        want = numpy.einsum('i,j,k->' + ''.join(out), numpy.arange(1., 3), numpy.arange(1., 4), numpy.arange(1., 5))
+        got = numpy.asarray(getattr(ns, 'P').eval()) if False else numpy.asarray(getattr(ns, name.split('_')[0]).eval())
+        if got.shape != want.shape or not numpy.allclose(got, want):
+            print("ns.%s = 'a_i b_j c_k' stores shape %s, expected %s" % (name, got.shape, want.shape))
+            print('REPLAY: VIOLATION-CONFIRMED free indices are not ordered as requested')
+            return
+    print('REPLAY: not reproduced')
